@@ -133,6 +133,16 @@ def _mech(m, pos):
         d['earlier_occurrences'] = len(occ)
         d['earlier_occurrences_all_in_imports'] = bool(occ) and all(
             x.search_ancestor('import_name', 'import_from') is not None for x in occ)
+
+        def in_nested_lambda(x):
+            a = x.parent
+            while a is not None and a is not root:
+                if a.type == 'lambdef':
+                    return True
+                a = a.parent
+            return False
+        d['earlier_occurrences_all_in_nested_lambda'] = bool(occ) and all(in_nested_lambda(x) for x in occ)
+        d['earlier_occurrences_all_in_type_params'] = bool(occ) and all(x.search_ancestor('type_params') is not None for x in occ)
     return d
 
 
@@ -178,6 +188,8 @@ def judge(ctx, v, text, ok_v, ok_38, origin):
         ctx.count('sense_a_programs')
         if err is not None:
             anc, val = _ancestors(m, err.start_pos)
+            _nl = err.get_last_leaf().get_next_leaf() if hasattr(err, 'children') else err.get_next_leaf()
+            common = dict(common, err_end_line=err.end_pos[0], next_leaf_line=_nl.start_pos[0] if _nl is not None else None)
             ctx.violation('a_error_node', 'CPython %s and 3.8 compile it, parso(%s) has %s at %s: %r' % (
                 v, v, err.type, err.start_pos, err.get_code()[:60]), w, sense='a', line=err.start_pos[0],
                 line_text=lines[err.start_pos[0] - 1][:120] if err.start_pos[0] - 1 < len(lines) else '', ancestors=anc,
